@@ -44,7 +44,28 @@ open_rows = ["| property | signature | what fails |", "|---|---|---|"]
 for f in kf:
     if f.get("status", "open") == "open":
         open_rows.append("| %s | `%s` | %s |" % (f["property"], f["signature"], f["what"].replace("|", "/")[:260]))
-sec = (V / "tools" / "section12.md").read_text().replace("SEEDED_TABLE", "\n".join(rows)).replace("FIX_TABLE", "\n".join(fix_rows)).replace("OPEN_TABLE", "\n".join(open_rows))
+import ast
+thm_rows = ["| id | theorems audited | required theorem names (harness/props/cXX.py THEOREMS; each must exist in PdProps.Cxx and depend on no axiom beyond propext, Classical.choice, Quot.sound) | last quick run: evaluations / non-trivial / correspondence lines |", "|---|---|---|---|"]
+for i in range(1, 21):
+    pid = "C%02d" % i
+    src = (V / "harness" / "props" / (pid.lower() + ".py")).read_text()
+    m = re.search(r"^THEOREMS\s*=\s*(\[.*?^\s*\]|\[.*?\])\s*$", src, re.S | re.M)
+    names = []
+    if m:
+        try:
+            names = ast.literal_eval(m.group(1))
+        except Exception:
+            names = re.findall(r'"([A-Za-z_][\w.]*)"', m.group(1))
+    ev = {}
+    try:
+        ev = json.loads((V / "evidence" / (pid + ".json")).read_text()).get("coverage", {})
+    except Exception:
+        pass
+    thm_rows.append("| %s | %s | %s | %s / %s / %s |" % (
+        pid, len(ev.get("theorems", []) or []) or ev.get("discharged", "?"),
+        ", ".join("`%s`" % n.split(".", 1)[-1] for n in names[:40]) + (" … (+%d)" % (len(names) - 40) if len(names) > 40 else ""),
+        ev.get("evaluations", "?"), ev.get("distinct_nontrivial", "?"), ev.get("traces_validated_against_impl", "?")))
+sec = (V / "tools" / "section12.md").read_text().replace("THEOREM_TABLE", "\n".join(thm_rows)).replace("SEEDED_TABLE", "\n".join(rows)).replace("FIX_TABLE", "\n".join(fix_rows)).replace("OPEN_TABLE", "\n".join(open_rows))
 design = (V / "DESIGN.md").read_text()
 i = design.find("\n## 12. As built")
 if i >= 0:
